@@ -4331,6 +4331,7 @@ int
 GRsetattr(int32 id, const char *name, int32 attr_nt, int32 count, const void *data)
 {
     int32      hdf_file_id;       /* HDF file ID from Hopen */
+    filerec_t *file_rec;          /* File record */
     gr_info_t *gr_ptr;            /* ptr to the GR information for this grid */
     ri_info_t *ri_ptr = NULL;     /* ptr to the image to work with */
     void     **t;                 /* temp. ptr to the image found */
@@ -4382,6 +4383,13 @@ GRsetattr(int32 id, const char *name, int32 attr_nt, int32 count, const void *da
     }    /* end if */
     else /* shouldn't get here, but what the heck... */
         HGOTO_ERROR(DFE_ARGS, FAIL);
+
+    /* attributes are stored by GRend(), which only writes to a file opened for writing */
+    file_rec = HAatom_object(hdf_file_id);
+    if (BADFREC(file_rec))
+        HGOTO_ERROR(DFE_ARGS, FAIL);
+    if (!(file_rec->access & DFACC_WRITE))
+        HGOTO_ERROR(DFE_DENIED, FAIL);
 
     /* Search for an attribute with the same name */
     if ((t = (void **)tbbtfirst(search_tree->root)) != NULL) {
